@@ -62,7 +62,7 @@ def bands : List (String × String) := [("GetAssetRates:tol", "0.1"), ("GetAsset
 
 def poolWrites : List String := []
 
-def poolReadsSyncPath : List String := ["node/pegnet/addresses.go:IsIncludedTopPEGAddress:pool:SELECT:p.DB", "node/pegnet/addresses.go:SelectBalances:pool-arg:p.selectBalances", "node/pegnet/addresses.go:SelectIssuances:pool:SELECT:p.DB", "node/pegnet/grading.go:SelectPreviousWinners:pool:SELECT:p.DB", "node/pegnet/grading.go:SelectRates:pool:SELECT:p.DB", "node/pegnet/txbatchholding.go:SelectTransactionBatchesInHoldingAtHeight:pool:SELECT:p.DB", "node/sync.go:DBlockSync:pool-arg:d.Pegnet.SnapshotCurrent"]
+def poolReadsSyncPath : List String := ["node/pegnet/addresses.go:IsIncludedTopPEGAddress:pool:SELECT:p.DB", "node/pegnet/addresses.go:SelectBalances:pool-arg:p.selectBalances", "node/pegnet/addresses.go:SelectIssuances:pool:SELECT:p.DB", "node/pegnet/grading.go:SelectPreviousWinners:pool:SELECT:p.DB", "node/pegnet/grading.go:SelectRates:pool:SELECT:p.DB", "node/pegnet/txbatchholding.go:SelectTransactionBatchesInHoldingAtHeight:pool:SELECT:p.DB"]
 
 def discardedErrors : List String := ["node/sync.go:DBlockSync:NullifyBurnAddress", "node/sync.go:DBlockSync:NullifyBurnAddress"]
 
@@ -76,7 +76,7 @@ def sorts : List String := ["node/sync.go:SnapshotPayouts:sort.Slice"]
 
 def timeNow : List String := ["node/pegnet/admin.go:markHeightSyncedVersion:time.Now", "node/sync.go:DBlockSync:time.Now", "node/sync.go:DBlockSync:time.Now", "node/sync.go:DBlockSync:time.Now", "node/sync.go:SnapshotPayouts:time.Now", "node/sync.go:DevelopersPayouts:time.Now"]
 
-def sharedState : List String := ["node/average.go:GetPegNetRateAverages:node:LastAveragesHeight", "node/average.go:GetPegNetRateAverages:node:LastAverages", "node/average.go:GetPegNetRateAverages:node:LastAveragesData", "node/average.go:GetPegNetRateAverages:node:LastAveragesData", "node/average.go:GetPegNetRateAverages:node:LastAveragesHeight", "node/average.go:GetPegNetRateAverages:node:LastAverages", "node/average.go:GetPegNetRateAverages:node:LastAveragesHeight", "node/average.go:GetPegNetRateAverages:node:LastAveragesHeight", "node/average.go:GetPegNetRateAverages:node:LastAveragesHeight", "node/node.go:NewPegnetd:node:Synced", "node/sync.go:GetCurrentSync:node:Synced", "node/sync.go:DBlockSync:node:Synced", "node/sync.go:DBlockSync:node:Synced", "node/sync.go:DBlockSync:node:Synced", "node/sync.go:DBlockSync:node:Synced", "node/sync.go:DBlockSync:node:Synced", "node/sync.go:DBlockSync:node:Synced", "node/sync.go:DBlockSync:node:Synced", "node/sync.go:DBlockSync:node:Synced", "node/sync.go:DBlockSync:node:Synced", "node/sync.go:DBlockSync:node:Synced", "node/sync.go:DBlockSync:node:Synced", "node/sync.go:DBlockSync:node:Synced", "node/sync.go:DBlockSync:node:Synced", "node/sync.go:DBlockSync:node:Synced", "node/sync.go:DBlockSync:node:Synced", "node/sync.go:DBlockSync:node:Synced", "node/sync.go:DBlockSync:node:Synced", "node/sync.go:DBlockSync:node:Synced", "node/sync.go:DBlockSync:node:Synced", "node/sync.go:DBlockSync:node:Synced", "node/sync.go:DBlockSync:node:Synced", "node/sync.go:DBlockSync:node:Synced", "node/sync.go:SyncBlock:node:Synced", "node/sync.go:SyncBlock:node:Synced", "srv/methods.go:getBank:srv:Synced", "srv/methods.go:getMiningDominance:srv:Synced", "srv/methods.go:getMiningDominance:srv:Synced", "srv/methods.go:getMiningDominance:srv:Synced", "srv/methods.go:rateAverages:srv:private:s.avgMu", "srv/methods.go:rateAverages:srv:private:s.avgMu", "srv/methods.go:rateAverages:srv:private:s.avgNode", "srv/methods.go:rateAverages:srv:new:node.Pegnetd{Pegnet: s.Node.Pegnet}", "srv/methods.go:rateAverages:srv:private:s.avgNode", "srv/methods.go:rateAverages:srv:call:s.avgNode.GetPegNetRateAverages", "srv/methods.go:rateAverages:srv:private:s.avgNode", "srv/methods.go:getGlobalRichList:srv:call:s.Node.GetCurrentSync", "srv/methods.go:getRichList:srv:call:s.Node.GetCurrentSync", "srv/methods.go:getPegnetRates:srv:Synced", "srv/methods.go:getSyncStatus:srv:call:s.Node.GetCurrentSync", "srv/methods.go:getSyncStatus:srv:call:s.Node.GetCurrentSync", "srv/methods.go:getGraded:srv:Synced"]
+def sharedState : List String := ["node/average.go:GetPegNetRateAverages:node:LastAveragesHeight", "node/average.go:GetPegNetRateAverages:node:LastAverages", "node/average.go:GetPegNetRateAverages:node:LastAveragesData", "node/average.go:GetPegNetRateAverages:node:LastAveragesData", "node/average.go:GetPegNetRateAverages:node:LastAveragesHeight", "node/average.go:GetPegNetRateAverages:node:LastAverages", "node/average.go:GetPegNetRateAverages:node:LastAveragesHeight", "node/average.go:GetPegNetRateAverages:node:LastAveragesHeight", "node/average.go:GetPegNetRateAverages:node:LastAveragesHeight", "node/node.go:NewPegnetd:node:Synced", "node/sync.go:GetCurrentSync:node:Synced", "node/sync.go:DBlockSync:node:Synced", "node/sync.go:DBlockSync:node:Synced", "node/sync.go:DBlockSync:node:Synced", "node/sync.go:DBlockSync:node:Synced", "node/sync.go:DBlockSync:node:Synced", "node/sync.go:DBlockSync:node:Synced", "node/sync.go:DBlockSync:node:Synced", "node/sync.go:DBlockSync:node:Synced", "node/sync.go:DBlockSync:node:Synced", "node/sync.go:DBlockSync:node:Synced", "node/sync.go:DBlockSync:node:Synced", "node/sync.go:DBlockSync:node:Synced", "node/sync.go:DBlockSync:node:Synced", "node/sync.go:DBlockSync:node:Synced", "node/sync.go:DBlockSync:node:Synced", "node/sync.go:DBlockSync:node:Synced", "node/sync.go:DBlockSync:node:Synced", "node/sync.go:DBlockSync:node:Synced", "node/sync.go:DBlockSync:node:Synced", "node/sync.go:DBlockSync:node:Synced", "node/sync.go:DBlockSync:node:Synced", "node/sync.go:SyncBlock:node:Synced", "node/sync.go:SyncBlock:node:Synced", "srv/methods.go:getBank:srv:Synced", "srv/methods.go:getMiningDominance:srv:Synced", "srv/methods.go:getMiningDominance:srv:Synced", "srv/methods.go:getMiningDominance:srv:Synced", "srv/methods.go:rateAverages:srv:private:s.avgMu", "srv/methods.go:rateAverages:srv:private:s.avgMu", "srv/methods.go:rateAverages:srv:private:s.avgNode", "srv/methods.go:rateAverages:srv:new:node.Pegnetd{Pegnet: s.Node.Pegnet}", "srv/methods.go:rateAverages:srv:private:s.avgNode", "srv/methods.go:rateAverages:srv:call:s.avgNode.GetPegNetRateAverages", "srv/methods.go:rateAverages:srv:private:s.avgNode", "srv/methods.go:getGlobalRichList:srv:call:s.Node.GetCurrentSync", "srv/methods.go:getRichList:srv:call:s.Node.GetCurrentSync", "srv/methods.go:getPegnetRates:srv:Synced", "srv/methods.go:getSyncStatus:srv:call:s.Node.GetCurrentSync", "srv/methods.go:getSyncStatus:srv:call:s.Node.GetCurrentSync", "srv/methods.go:getGraded:srv:Synced"]
 
 def apiSharedState : List String := ["srv/methods.go:getBank:srv:Synced", "srv/methods.go:getMiningDominance:srv:Synced", "srv/methods.go:getMiningDominance:srv:Synced", "srv/methods.go:getMiningDominance:srv:Synced", "srv/methods.go:rateAverages:srv:private:s.avgMu", "srv/methods.go:rateAverages:srv:private:s.avgMu", "srv/methods.go:rateAverages:srv:private:s.avgNode", "srv/methods.go:rateAverages:srv:new:node.Pegnetd{Pegnet: s.Node.Pegnet}", "srv/methods.go:rateAverages:srv:private:s.avgNode", "srv/methods.go:rateAverages:srv:call:s.avgNode.GetPegNetRateAverages", "srv/methods.go:rateAverages:srv:private:s.avgNode", "srv/methods.go:getGlobalRichList:srv:call:s.Node.GetCurrentSync", "srv/methods.go:getRichList:srv:call:s.Node.GetCurrentSync", "srv/methods.go:getPegnetRates:srv:Synced", "srv/methods.go:getSyncStatus:srv:call:s.Node.GetCurrentSync", "srv/methods.go:getSyncStatus:srv:call:s.Node.GetCurrentSync", "srv/methods.go:getGraded:srv:Synced"]
 
